@@ -591,7 +591,11 @@ class Watcher(object):
         # when an on_demand process dies, do not restart it until
         # the next event
         if self.pending_socket_event:
-            self._status = "stopped"
+            # stopped only once no worker is left: a watcher that reports
+            # stopped while it still lists live workers makes the next start
+            # wait for them in reap_processes()
+            if not self.processes:
+                self._status = "stopped"
             return
         for i in self._found_wids:
             self.spawn_process(i)
